@@ -70,4 +70,18 @@ CHECKS = {
         "design_ref": "DESIGN.md 2/C14",
         "note": "Pins are the trusted base for ranges and first flexible versions.",
     },
+    "C11": {
+        "level": "exploration",
+        "technique": "differential testing of every primitive reader/writer against reference encoders; exhaustive on small domains, boundary + Hypothesis beyond",
+        "text": "All 66 public primitive functions are paired with reference implementations that share no code with kio (int.to_bytes, own LEB128/zig-zag, IEEE-754 bits via frexp). 8/16-bit domains and varints below 2^14 (quick) / 2^21 (thorough) are enumerated completely, as are all byte strings up to 2 (quick) / 3 (thorough) bytes as varint input; larger domains by every power-of-two neighbourhood plus Hypothesis draws; out-of-domain values must raise without emitting bytes.",
+        "design_ref": "DESIGN.md 2/C11",
+        "note": "Varint writers are not driven outside their domain (not claimed length-limited); NaN payloads not compared on the writer side.",
+    },
+    "C12": {
+        "level": "exploration",
+        "technique": "boundary-value enumeration + Hypothesis draws against a pinned table of documented ranges; writer/reader round trip for members",
+        "text": "Membership (isinstance), constructor identity/TypeError and range nesting are compared with expectations computed from a hard-coded table of the documented ranges for every value within +-2 of any limit of any type, +-2^k magnitudes, float classes, us-offset durations and datetimes in several zones; every member is pushed through its writer and reader.",
+        "design_ref": "DESIGN.md 2/C12",
+        "note": "The range table in kv/props/c12.py is the trusted statement of the documented domains.",
+    },
 }
